@@ -393,6 +393,7 @@ func (fr *Frame) loopHead(li *LoopInfo, st *State, pc Term, phiEntry map[*ssa.Ph
 			if v.R != nil {
 				v.R.Label = pv.R.Label
 				v.R.ElemLabel = elemLabel(pv.R)
+				v.R.ElemOwn = elemOwn(pv.R)
 			}
 		} else if pv.K == vTerm && v.K == vTerm {
 			v.Lab = labelOf(pv)
@@ -500,6 +501,25 @@ func (fr *Frame) backEdge(b, h *ssa.BasicBlock) {
 			}
 		}
 	}
+	// provenance of loop-carried values: join what flows around the back edge into the head's values
+	for phi, in := range phis {
+		hv, ok := rt.phiVals[phi]
+		if !ok {
+			continue
+		}
+		if (hv.K == vSlice || hv.K == vMap) && hv.R != nil && (in.K == vSlice || in.K == vMap) && in.R != nil {
+			hv.R.Label = joinLabel(hv.R.Label, in.R.Label)
+			hv.R.ElemLabel = joinLabel(elemLabel(hv.R), elemLabel(in.R))
+			hv.R.ElemOwn = joinLabel(elemOwn(hv.R), elemOwn(in.R))
+		} else if hv.K == vTerm && in.K == vTerm {
+			hv.Lab = joinLabel(labelOf(hv), labelOf(in))
+			if structSorts[hv.T.Sort] {
+				hv.Own = joinLabel(ownOf(hv), ownOf(in))
+			}
+			rt.phiVals[phi] = hv
+			fr.vals[phi] = hv
+		}
+	}
 	for i, inv := range fr.invariants(rt) {
 		g, err := fr.evalInv(inv, rt, st, phis)
 		if err != nil {
@@ -538,11 +558,14 @@ func (fr *Frame) havocLoop(li *LoopInfo, st *State) {
 				c := e.fresh("h_"+r.Name, cv.S)
 				e.assumeTypeInv(c, nil)
 				nv := e.wrapOwn(st, c, labelOf(cv), cv.R.Label)
+				nv.R.ElemOwn = elemOwn(cv.R)
 				st.cell[r] = nv
 			case vMap:
 				c := e.fresh("h_"+r.Name, cv.S)
 				e.assumeTypeInv(c, nil)
-				st.cell[r] = e.wrapOwn(st, c, labelOf(cv), cv.R.Label)
+				nm := e.wrapOwn(st, c, labelOf(cv), cv.R.Label)
+				nm.R.ElemOwn = elemOwn(cv.R)
+				st.cell[r] = nm
 			}
 		case 1:
 			if old, ok := st.mem[r]; ok {
